@@ -193,7 +193,59 @@ func srLog(ctx context.Context, id int64, size int) {
 		log.Int("end", id))
 }
 
+// layoutStress: a layout is shared by all goroutines that log through its appender.  16 goroutines format 2000
+// different events (each in a second of its own, different levels, sizes and locations) through ONE layout instance,
+// again and again; every result must be byte-identical to the line the event produces alone on a fresh instance.
+func layoutStress(r *hx.Result) {
+	const N, G, passes = 2000, 16, 12
+	base := time.Date(2030, 5, 6, 7, 8, 9, 120000000, time.UTC)
+	events := make([]*log.Event, N)
+	for i := range events {
+		events[i] = &log.Event{Level: []log.Level{log.InfoLevel, log.WarnLevel, srInfoX, log.ErrorLevel}[i%4], Time: base.Add(time.Duration(i) * 1700 * time.Millisecond),
+			File: fmt.Sprintf("pkg%d/file%d.go", i%7, i%13), Line: i, Tag: "st_tag", CtxString: []string{"", "trace-1"}[i%2],
+			Fields: []log.Field{log.Int("id", int64(i)), log.String("pad", strings.Repeat("x", i%300)), log.Ints("arr", []int64{int64(i), 2}), log.Int("end", int64(i))}}
+	}
+	for li, mk := range []func() log.Layout{
+		func() log.Layout { return &log.TextLayout{BaseLayout: log.BaseLayout{FileLineLength: 48}} },
+		func() log.Layout { return &log.JSONLayout{BaseLayout: log.BaseLayout{FileLineLength: 48}} }} {
+		want := make([][]byte, N)
+		for i, e := range events {
+			want[i] = mk().ToBytes(e)
+		}
+		shared := mk()
+		var bad atomic.Value
+		var wg sync.WaitGroup
+		for g := 0; g < G; g++ {
+			wg.Add(1)
+			go func(g int) {
+				defer wg.Done()
+				defer func() {
+					if p := recover(); p != nil {
+						bad.Store(fmt.Sprintf("panic: %v", p))
+					}
+				}()
+				for pass := 0; pass < passes && bad.Load() == nil; pass++ {
+					for k := 0; k < N; k++ {
+						i := (k*7 + g*131 + pass*17) % N
+						if got := shared.ToBytes(events[i]); !bytes.Equal(got, want[i]) {
+							bad.Store(fmt.Sprintf("event %d: got %.160q, alone it is %.160q", i, got, want[i]))
+							return
+						}
+					}
+				}
+			}(g)
+		}
+		wg.Wait()
+		r.Eval(N)
+		if b := bad.Load(); b != nil {
+			r.Violate("layout-not-pure-under-concurrency:"+[]string{"text", "json"}[li], map[string]any{"goroutines": G, "events": N, "passes": passes},
+				"one layout instance, %d goroutines: %v", G, b)
+		}
+	}
+}
+
 func cmdSyncRec(f hx.Flags, r *hx.Result) {
+	defer layoutStress(r)
 	debug.SetGCPercent(-1) // addresses identify objects in the trace: nothing may be freed and reused
 	rng := hx.Rand(3)
 	tmp, err := os.MkdirTemp(os.Getenv("VERIF_SCRATCH"), "sr-")
@@ -247,6 +299,12 @@ func cmdSyncRec(f hx.Flags, r *hx.Result) {
 		per := 6 + rng.Intn(20)
 		if goroutines == 64 {
 			per = 4
+		}
+		if run == 1 || run == 8 {
+			// two long runs (one per layout) on the in-memory sink: many overlapping calls of one layout instance, each
+			// event in a second of its own
+			goroutines, per = 16, 400
+			sinkKind = "file" // a sink that does not slow the callers down: the layout is the contended part
 		}
 		dir := filepath.Join(tmp, fmt.Sprintf("r%d", run))
 		_ = os.MkdirAll(dir, 0o755)
